@@ -127,10 +127,12 @@ func ruleMapDelegates(c *Ctx, r *R) {
 		fn := meths[n]
 		key := "xsync.Map." + n
 		var calls []*ssa.Call
+		var site ssa.Instruction
 		for _, d := range deepInstrs(fn, 2) {
 			if call, ok := d.in.(*ssa.Call); ok {
 				if cal := call.Call.StaticCallee(); cal != nil && cal.Signature.Recv() != nil && isNamedType(cal.Signature.Recv().Type(), "sync", "Map") {
 					calls = append(calls, call)
+					site = d.site
 				}
 			}
 		}
@@ -167,6 +169,14 @@ func ruleMapDelegates(c *Ctx, r *R) {
 				}
 			}
 		}
+		// no answer without asking sync.Map: the delegating call precedes every return (a shortcut such as "old == new, nothing
+		// to do" answers true where sync.Map answers false for an absent key)
+		instrs(fn, func(b *ssa.BasicBlock, i int, in ssa.Instruction) {
+			if _, ok := in.(*ssa.Return); ok && site != nil && b != site.Block() && !site.Block().Dominates(b) {
+				good = false
+				why = "a path returns without having called sync.Map." + n
+			}
+		})
 		// the bool result returned is sync.Map's own (on the path where it is not a constant)
 		if fn.Signature.Results().Len() >= 1 {
 			last := fn.Signature.Results().Len() - 1
@@ -623,4 +633,78 @@ func ruleLazyOnce(c *Ctx, r *R) {
 		})
 	}
 	r.ok(good && handed, "xsync.Lazy|once", fn.Pos(), "f must run at most once: "+why)
+	// hand-written variant: the accessor reads the cached value only after once.Do returned, or under a 'done' flag that the
+	// once-closure sets AFTER it stored the value (a flag raised before f() lets a concurrent caller return the zero value)
+	var onceClo *ssa.Function
+	var valCell *ssa.Alloc
+	for _, g := range withAnon(fn) {
+		if g == fn {
+			continue
+		}
+		instrs(g, func(b *ssa.BasicBlock, i int, in ssa.Instruction) {
+			st, ok := in.(*ssa.Store)
+			if !ok {
+				return
+			}
+			if call, ok := st.Val.(*ssa.Call); ok && (call.Call.Value == ssa.Value(f) || path(call.Call.Value) == pname(f)) {
+				if cell := cellOf(st.Addr); cell != nil {
+					onceClo, valCell = g, cell
+				}
+			}
+		})
+	}
+	if onceClo == nil || valCell == nil {
+		return // sync.OnceValue variant: nothing to check here
+	}
+	for _, g := range withAnon(fn) {
+		if g == fn || g == onceClo {
+			continue
+		}
+		n := 0
+		instrs(g, func(b *ssa.BasicBlock, i int, in ssa.Instruction) {
+			ld, ok := in.(*ssa.UnOp)
+			if !ok || ld.Op != token.MUL || cellOf(ld.X) != valCell {
+				return
+			}
+			n++
+			after := false
+			instrs(g, func(b2 *ssa.BasicBlock, j int, in2 ssa.Instruction) {
+				if oc, ok := in2.(*ssa.Call); ok {
+					if cal := oc.Call.StaticCallee(); cal != nil && cal.Name() == "Do" && cal.Signature.Recv() != nil && isNamedType(cal.Signature.Recv().Type(), "sync", "Once") {
+						if (b2 == b && j < i) || (b2 != b && b2.Dominates(b)) {
+							after = true
+						}
+					}
+				}
+			})
+			if !after {
+				// under a flag that is raised after the value was stored
+				for _, gd := range guardsOf(b) {
+					v, val := gd.boolVal()
+					fc, ok := v.(*ssa.Call)
+					if !ok || !val || fc.Call.StaticCallee() == nil || fc.Call.StaticCallee().Name() != "Load" || len(fc.Call.Args) == 0 {
+						continue
+					}
+					flag := cellOf(fc.Call.Args[0])
+					if flag == nil {
+						continue
+					}
+					// in the once-closure: Store(true) on that flag after the store of the value, same block or dominated
+					var valSt, flagSt ssa.Instruction
+					instrs(onceClo, func(b3 *ssa.BasicBlock, k int, in3 ssa.Instruction) {
+						if st, ok := in3.(*ssa.Store); ok && cellOf(st.Addr) == valCell {
+							valSt = st
+						}
+						if sc, ok := in3.(*ssa.Call); ok && sc.Call.StaticCallee() != nil && sc.Call.StaticCallee().Name() == "Store" && len(sc.Call.Args) > 0 && cellOf(sc.Call.Args[0]) == flag {
+							flagSt = sc
+						}
+					})
+					if valSt != nil && flagSt != nil && ((valSt.Block() == flagSt.Block() && idxIn(valSt) < idxIn(flagSt)) || (valSt.Block() != flagSt.Block() && valSt.Block().Dominates(flagSt.Block()))) {
+						after = true
+					}
+				}
+			}
+			r.ok(after, "xsync.Lazy|read-after-init#"+itoa(n), ld.Pos(), "the cached value is read on a path that neither follows once.Do nor is guarded by a flag raised after the value was stored: a caller that overlaps the first initialisation gets the zero value")
+		})
+	}
 }
